@@ -803,11 +803,11 @@ def run_impl(world, case, mode):
                 for x, v in case['anns']:
                     p = sig.parameters[name_of(x)]
                     if p.annotation is not world.obj[v] or p.upgraded_annotation.source_value() is not world.obj[v]:
-                        notes.append(('C11:annotate-verbatim', 'annotate(%s=v%d) reports %r / %r' % (
-                            name_of(x), v, p.annotation, p.upgraded_annotation.source_value())))
+                        notes.append(('C11:annotate-verbatim', 'annotate(%s=%s) reports %r / %r' % (
+                            name_of(x), vname(v), p.annotation, p.upgraded_annotation.source_value())))
                 if case['retv'] is not None and (sig.return_annotation is not world.obj[case['retv']] or rv is not world.obj[case['retv']]):
-                    notes.append(('C11:annotate-verbatim', 'annotate(v%d) reports return annotation %r / %r' % (
-                        case['retv'], sig.return_annotation, rv)))
+                    notes.append(('C11:annotate-verbatim', 'annotate(%s) reports return annotation %r / %r' % (
+                        vname(case['retv']), sig.return_annotation, rv)))
     except Exception as e:  # noqa: BLE001
         return {'ok': True, 'broken': True, 'notes': [('C11:eval-raises', 'observing the result raised %s: %s' % (type(e).__name__, str(e)[:160]))],
                 'text': str(sig), 'params': [], 'ret': None, 'uret': ('E',), 'svs': [], 'svr': None, 'eps': [], 'eret': None}
